@@ -30,12 +30,14 @@ EXTENDS Naturals, Sequences, FiniteSets
 
 CONSTANTS MaxN,       \* the user's generator yields 0..MaxN items
           MaxPings,
+          MaxFail,    \* scenario: the failAt-th call of send() raises (the server lost the connection), failAt \in 0..MaxFail, 0 = never
           Drain       \* TRUE: render_stream's finally empties the queue before cancelling push (the code); FALSE: it does not (witness:
                       \* push then blocks for ever in its final put)
 
 None == 0             \* the sentinel in the queue (items are 1..N)
 
-VARIABLES n, raiseAt,              \* scenario: number of items; the generator raises INSTEAD of item raiseAt (n+1: instead of finishing; 0: never)
+VARIABLES failAt, sends, sfail,    \* scenario: which send() raises; send() calls so far; a body send has raised (the exception is in flight)
+          n, raiseAt,              \* scenario: number of items; the generator raises INSTEAD of item raiseAt (n+1: instead of finishing; 0: never)
           running,                 \* "none" | "main" | "push" | "wait"
           mpc, ppc, wpc,           \* program counters
           q, shouldStop, clientClosed,
@@ -48,12 +50,13 @@ VARIABLES n, raiseAt,              \* scenario: number of items; the generator r
           pexc, pcancelled,        \* push ended with the producer's exception / by cancellation
           delivered, pings, finalSent, discDelivered,
           mexc, outcome            \* main holds the producer's exception; "" | "returned" | "raised"
-vars == <<n, raiseAt, running, mpc, ppc, wpc, q, shouldStop, clientClosed, rsStarted, rsFinished, cur, pending, produced, begun, closed,
+vars == <<n, raiseAt, failAt, sends, sfail, running, mpc, ppc, wpc, q, shouldStop, clientClosed, rsStarted, rsFinished, cur, pending, produced, begun, closed,
           released, cancelReq, wCancelReq, pexc, pcancelled, delivered, pings, finalSent, discDelivered, mexc, outcome>>
 
 Ping == MaxN + 1
 
 Init == /\ n \in 0..MaxN /\ raiseAt \in 0..(MaxN + 1) /\ raiseAt <= n + 1
+        /\ failAt \in 0..MaxFail /\ sends = 0 /\ sfail = FALSE
         /\ running = "main" /\ mpc = "init" /\ ppc = "none" /\ wpc = "none"
         /\ q = <<>> /\ shouldStop = FALSE /\ clientClosed = FALSE /\ rsStarted = FALSE /\ rsFinished = FALSE
         /\ cur = 0 /\ pending = 0 /\ produced = 0 /\ begun = FALSE /\ closed = 0 /\ released = FALSE
@@ -64,24 +67,26 @@ Holds(t) == running = t
 Free == running = "none"
 
 \* ------------------------------------------------------------------ main
-MU == <<n, raiseAt, ppc, wpc, q, shouldStop, clientClosed, rsStarted, rsFinished, cur, pending, produced, begun, closed, released,
+MU == <<n, raiseAt, failAt, sends, sfail, ppc, wpc, q, shouldStop, clientClosed, rsStarted, rsFinished, cur, pending, produced, begun, closed, released,
         cancelReq, wCancelReq, pexc, pcancelled, delivered, pings, finalSent, discDelivered, mexc, outcome>>
 
 \* await send(http.response.start)
-MSendStart == /\ Holds("main") /\ mpc = "init"
-              /\ mpc' = "spawn" /\ running' = "none"
-              /\ UNCHANGED MU
+MSendStart == /\ Holds("main") /\ mpc = "init" /\ sends' = 1
+              /\ IF failAt = 1 THEN mpc' = "fail" /\ UNCHANGED running      \* send() raises: the exception leaves __call__ (nothing was started yet)
+                 ELSE mpc' = "spawn" /\ running' = "none"
+              /\ UNCHANGED <<n, raiseAt, failAt, ppc, wpc, q, shouldStop, clientClosed, rsStarted, rsFinished, cur, pending, produced, begun, closed, released,
+                             cancelReq, wCancelReq, pexc, pcancelled, discDelivered, mexc, sfail, delivered, pings, finalSent, outcome>>
 \* back from the send: ensure_future(wait_close), generator = render_stream()
 MSpawn == /\ Free /\ mpc = "spawn"
           /\ wpc' = "ready" /\ mpc' = "top" /\ running' = "main"
-          /\ UNCHANGED <<n, raiseAt, ppc, q, shouldStop, clientClosed, rsStarted, rsFinished, cur, pending, produced, begun, closed, released,
+          /\ UNCHANGED <<n, raiseAt, failAt, sends, sfail, ppc, q, shouldStop, clientClosed, rsStarted, rsFinished, cur, pending, produced, begun, closed, released,
                          cancelReq, wCancelReq, pexc, pcancelled, delivered, pings, finalSent, discDelivered, mexc, outcome>>
 \* while not self._client_closed: chunk = await generator.asend(None)   (first asend: queue and push task are created)
 MTop == /\ Holds("main") /\ mpc = "top"
         /\ IF clientClosed THEN mpc' = "fin" /\ UNCHANGED <<rsStarted, ppc>>
            ELSE /\ mpc' = "loop" /\ rsStarted' = TRUE
                 /\ ppc' = IF rsStarted THEN ppc ELSE "ready"
-        /\ UNCHANGED <<n, raiseAt, running, wpc, q, shouldStop, clientClosed, rsFinished, cur, pending, produced, begun, closed, released,
+        /\ UNCHANGED <<n, raiseAt, failAt, sends, sfail, running, wpc, q, shouldStop, clientClosed, rsFinished, cur, pending, produced, begun, closed, released,
                        cancelReq, wCancelReq, pexc, pcancelled, delivered, pings, finalSent, discDelivered, mexc, outcome>>
 \* while not (push_future.done() and q.empty()): await wait_for(q.get(), ping_interval)
 Got(item) == IF item = None THEN mpc' = "rsfin" /\ UNCHANGED cur ELSE mpc' = "yield" /\ cur' = item
@@ -89,25 +94,28 @@ MLoop == /\ Holds("main") /\ mpc = "loop"
          /\ IF ppc = "done" /\ q = <<>> THEN mpc' = "rsfin" /\ UNCHANGED <<q, cur, running>>
             ELSE IF q # <<>> THEN Got(Head(q)) /\ q' = Tail(q) /\ UNCHANGED running
             ELSE mpc' = "waitGet" /\ running' = "none" /\ UNCHANGED <<q, cur>>
-         /\ UNCHANGED <<n, raiseAt, ppc, wpc, shouldStop, clientClosed, rsStarted, rsFinished, pending, produced, begun, closed, released,
+         /\ UNCHANGED <<n, raiseAt, failAt, sends, sfail, ppc, wpc, shouldStop, clientClosed, rsStarted, rsFinished, pending, produced, begun, closed, released,
                         cancelReq, wCancelReq, pexc, pcancelled, delivered, pings, finalSent, discDelivered, mexc, outcome>>
 \* the getter is woken: something was put
 MWake == /\ Free /\ mpc = "waitGet" /\ q # <<>>
          /\ Got(Head(q)) /\ q' = Tail(q) /\ running' = "main"
-         /\ UNCHANGED <<n, raiseAt, ppc, wpc, shouldStop, clientClosed, rsStarted, rsFinished, pending, produced, begun, closed, released,
+         /\ UNCHANGED <<n, raiseAt, failAt, sends, sfail, ppc, wpc, shouldStop, clientClosed, rsStarted, rsFinished, pending, produced, begun, closed, released,
                         cancelReq, wCancelReq, pexc, pcancelled, delivered, pings, finalSent, discDelivered, mexc, outcome>>
 \* the ping timer fires first: TimeoutError -> yield the ping comment (an item put meanwhile stays in the queue)
 \* (the model bounds the number of pings, but the timer always gets one more chance once the client has gone)
 MTimeout == /\ Free /\ mpc = "waitGet" /\ (pings < MaxPings \/ (clientClosed /\ pings < MaxPings + 1))
             /\ cur' = Ping /\ mpc' = "yield" /\ running' = "main"
-            /\ UNCHANGED <<n, raiseAt, ppc, wpc, q, shouldStop, clientClosed, rsStarted, rsFinished, pending, produced, begun, closed, released,
+            /\ UNCHANGED <<n, raiseAt, failAt, sends, sfail, ppc, wpc, q, shouldStop, clientClosed, rsStarted, rsFinished, pending, produced, begun, closed, released,
                            cancelReq, wCancelReq, pexc, pcancelled, delivered, pings, finalSent, discDelivered, mexc, outcome>>
 \* await send(body chunk, more_body=True)
-MSendBody == /\ Holds("main") /\ mpc = "yield"
-             /\ IF cur = Ping THEN pings' = pings + 1 /\ UNCHANGED delivered ELSE delivered' = Append(delivered, cur) /\ UNCHANGED pings
-             /\ mpc' = "sent" /\ running' = "none"
-             /\ UNCHANGED <<n, raiseAt, ppc, wpc, q, shouldStop, clientClosed, rsStarted, rsFinished, cur, pending, produced, begun, closed, released,
-                            cancelReq, wCancelReq, pexc, pcancelled, finalSent, discDelivered, mexc, outcome>>
+MSendBody == /\ Holds("main") /\ mpc = "yield" /\ sends' = sends + 1
+             /\ IF failAt = sends + 1
+                  THEN \* send() raises inside the try: __call__'s finally follows (render_stream is suspended at its yield)
+                       sfail' = TRUE /\ mpc' = "fin" /\ UNCHANGED <<running, delivered, pings>>
+                  ELSE /\ IF cur = Ping THEN pings' = pings + 1 /\ UNCHANGED delivered ELSE delivered' = Append(delivered, cur) /\ UNCHANGED pings
+                       /\ mpc' = "sent" /\ running' = "none" /\ UNCHANGED sfail
+             /\ UNCHANGED <<n, raiseAt, failAt, ppc, wpc, q, shouldStop, clientClosed, rsStarted, rsFinished, cur, pending, produced, begun, closed, released,
+                             cancelReq, wCancelReq, pexc, pcancelled, discDelivered, mexc, finalSent, outcome>>
 MSent == /\ Free /\ mpc = "sent" /\ mpc' = "top" /\ running' = "main" /\ UNCHANGED MU
 
 \* render_stream's finally: should_stop = True; drain q; cancel push, or re-raise what it died of.  No await inside: one step.
@@ -117,35 +125,41 @@ RsFinally == /\ shouldStop' = TRUE /\ q' = (IF Drain THEN <<>> ELSE q) /\ rsFini
 \* the loop of render_stream ended (None taken, or push done and queue empty): its finally runs inside asend
 MRsFin == /\ Holds("main") /\ mpc = "rsfin"
           /\ RsFinally /\ mpc' = "fin"
-          /\ UNCHANGED <<n, raiseAt, running, ppc, wpc, clientClosed, rsStarted, cur, pending, produced, begun, closed, released,
+          /\ UNCHANGED <<n, raiseAt, failAt, sends, sfail, running, ppc, wpc, clientClosed, rsStarted, cur, pending, produced, begun, closed, released,
                          wCancelReq, pexc, pcancelled, delivered, pings, finalSent, discDelivered, outcome>>
 \* finally of __call__: wait_close_future.cancel() ...
 MFin == /\ Holds("main") /\ mpc = "fin"
         /\ wCancelReq' = (wpc # "done") /\ mpc' = "aclose"
-        /\ UNCHANGED <<n, raiseAt, running, ppc, wpc, q, shouldStop, clientClosed, rsStarted, rsFinished, cur, pending, produced, begun, closed, released,
+        /\ UNCHANGED <<n, raiseAt, failAt, sends, sfail, running, ppc, wpc, q, shouldStop, clientClosed, rsStarted, rsFinished, cur, pending, produced, begun, closed, released,
                        cancelReq, pexc, pcancelled, delivered, pings, finalSent, discDelivered, mexc, outcome>>
 \* ... await generator.aclose(): render_stream's finally runs now if it is suspended at a yield (nothing to do if it finished or never started)
 MAclose == /\ Holds("main") /\ mpc = "aclose"
            /\ IF rsStarted /\ ~rsFinished THEN RsFinally ELSE UNCHANGED <<shouldStop, q, rsFinished, mexc, cancelReq>>
            /\ mpc' = "fin2"
-           /\ UNCHANGED <<n, raiseAt, running, ppc, wpc, clientClosed, rsStarted, cur, pending, produced, begun, closed, released,
+           /\ UNCHANGED <<n, raiseAt, failAt, sends, sfail, running, ppc, wpc, clientClosed, rsStarted, cur, pending, produced, begun, closed, released,
                           wCancelReq, pexc, pcancelled, delivered, pings, finalSent, discDelivered, outcome>>
 \* the producer's exception leaves __call__; otherwise the final empty body is sent
 MRaise == /\ Holds("main") /\ mpc = "fin2" /\ mexc
           /\ outcome' = "raised" /\ mpc' = "done" /\ running' = "none"
-          /\ UNCHANGED <<n, raiseAt, ppc, wpc, q, shouldStop, clientClosed, rsStarted, rsFinished, cur, pending, produced, begun, closed, released,
+          /\ UNCHANGED <<n, raiseAt, failAt, sends, sfail, ppc, wpc, q, shouldStop, clientClosed, rsStarted, rsFinished, cur, pending, produced, begun, closed, released,
                          cancelReq, wCancelReq, pexc, pcancelled, delivered, pings, finalSent, discDelivered, mexc>>
-MSendFinal == /\ Holds("main") /\ mpc = "fin2" /\ ~mexc
-              /\ finalSent' = TRUE /\ mpc' = "ret" /\ running' = "none"
-              /\ UNCHANGED <<n, raiseAt, ppc, wpc, q, shouldStop, clientClosed, rsStarted, rsFinished, cur, pending, produced, begun, closed, released,
-                             cancelReq, wCancelReq, pexc, pcancelled, delivered, pings, discDelivered, mexc, outcome>>
+MSendFinal == /\ Holds("main") /\ mpc = "fin2" /\ ~mexc /\ ~sfail /\ sends' = sends + 1
+              /\ IF failAt = sends + 1 THEN mpc' = "fail" /\ UNCHANGED <<running, finalSent>>
+                 ELSE finalSent' = TRUE /\ mpc' = "ret" /\ running' = "none"
+              /\ UNCHANGED <<n, raiseAt, failAt, ppc, wpc, q, shouldStop, clientClosed, rsStarted, rsFinished, cur, pending, produced, begun, closed, released,
+                             cancelReq, wCancelReq, pexc, pcancelled, discDelivered, mexc, sfail, delivered, pings, outcome>>
+\* the failure of send() leaves __call__ (after the finally block, unless the relay's exception replaced it there: MRaise)
+MSendFailed == /\ Holds("main") /\ (mpc = "fail" \/ (mpc = "fin2" /\ ~mexc /\ sfail))
+               /\ outcome' = "sendfailed" /\ mpc' = "done" /\ running' = "none"
+               /\ UNCHANGED <<n, raiseAt, failAt, ppc, wpc, q, shouldStop, clientClosed, rsStarted, rsFinished, cur, pending, produced, begun, closed, released,
+                             cancelReq, wCancelReq, pexc, pcancelled, discDelivered, mexc, sends, sfail, delivered, pings, finalSent>>
 MReturn == /\ Free /\ mpc = "ret"
            /\ outcome' = "returned" /\ mpc' = "done"
-           /\ UNCHANGED <<n, raiseAt, running, ppc, wpc, q, shouldStop, clientClosed, rsStarted, rsFinished, cur, pending, produced, begun, closed, released,
+           /\ UNCHANGED <<n, raiseAt, failAt, sends, sfail, running, ppc, wpc, q, shouldStop, clientClosed, rsStarted, rsFinished, cur, pending, produced, begun, closed, released,
                           cancelReq, wCancelReq, pexc, pcancelled, delivered, pings, finalSent, discDelivered, mexc>>
 
 \* ------------------------------------------------------------------ push
-PU == <<n, raiseAt, mpc, wpc, clientClosed, rsStarted, rsFinished, cur, wCancelReq, delivered, pings, finalSent, discDelivered, mexc, outcome>>
+PU == <<n, raiseAt, failAt, sends, sfail, mpc, wpc, clientClosed, rsStarted, rsFinished, cur, wCancelReq, delivered, pings, finalSent, discDelivered, mexc, outcome>>
 
 \* the task gets its first turn (a task cancelled before that never runs its body)
 PStart == /\ Free /\ ppc = "ready"
@@ -207,7 +221,7 @@ PAclose == /\ Holds("push") /\ ppc = "aclose"
            /\ UNCHANGED <<q, shouldStop, pending, produced, begun, cancelReq, pexc, pcancelled>> /\ UNCHANGED PU
 
 \* ------------------------------------------------------------------ watcher and client
-WU == <<n, raiseAt, mpc, ppc, q, shouldStop, rsStarted, rsFinished, cur, pending, produced, begun, closed, released, cancelReq, pexc, pcancelled,
+WU == <<n, raiseAt, failAt, sends, sfail, mpc, ppc, q, shouldStop, rsStarted, rsFinished, cur, pending, produced, begun, closed, released, cancelReq, pexc, pcancelled,
         delivered, pings, finalSent, mexc, outcome>>
 WStart == /\ Free /\ wpc = "ready"
           /\ wpc' = IF wCancelReq THEN "done" ELSE "recv"
@@ -220,19 +234,19 @@ WCancelled == /\ Free /\ wpc = "recv" /\ wCancelReq
               /\ wpc' = "done"
               /\ UNCHANGED <<running, clientClosed, wCancelReq, discDelivered>> /\ UNCHANGED WU
 
-Next == \/ MSendStart \/ MSpawn \/ MTop \/ MLoop \/ MWake \/ MTimeout \/ MSendBody \/ MSent \/ MRsFin \/ MFin \/ MAclose \/ MRaise \/ MSendFinal \/ MReturn
+Next == \/ MSendStart \/ MSpawn \/ MTop \/ MLoop \/ MWake \/ MTimeout \/ MSendBody \/ MSent \/ MRsFin \/ MFin \/ MAclose \/ MRaise \/ MSendFinal \/ MSendFailed \/ MReturn
         \/ PStart \/ PCheck \/ PItem \/ PEnd \/ PRaise \/ PPut \/ PPutWake \/ PCancelAnext \/ PCancelPut \/ PFinally \/ PNoneWake \/ PCancelNone \/ PAclose
         \/ WStart \/ WDisc \/ WCancelled
 Spec == Init /\ [][Next]_vars
 \* fairness: every task that can run eventually does; the client and the ping timer are not obliged to act,
 \* the producer is (a generator that never yields again keeps a plain stream open by design; here the ping bounds the wait)
-TaskFairness == /\ WF_vars(MSendStart \/ MSpawn \/ MTop \/ MLoop \/ MWake \/ MSendBody \/ MSent \/ MRsFin \/ MFin \/ MAclose \/ MRaise \/ MSendFinal \/ MReturn)
+TaskFairness == /\ WF_vars(MSendStart \/ MSpawn \/ MTop \/ MLoop \/ MWake \/ MSendBody \/ MSent \/ MRsFin \/ MFin \/ MAclose \/ MRaise \/ MSendFinal \/ MSendFailed \/ MReturn)
             /\ WF_vars(PStart \/ PCheck \/ PItem \/ PEnd \/ PRaise \/ PPut \/ PPutWake \/ PCancelAnext \/ PCancelPut \/ PFinally \/ PNoneWake \/ PCancelNone \/ PAclose)
             /\ WF_vars(WStart \/ WCancelled)
 FairSpec == Spec /\ TaskFairness
 \* the same without any obligation on the producer, but with the ping timer firing: what C06 says about event streams
 ProgressNoProducer ==
-            /\ WF_vars(MSendStart \/ MSpawn \/ MTop \/ MLoop \/ MWake \/ MTimeout \/ MSendBody \/ MSent \/ MRsFin \/ MFin \/ MAclose \/ MRaise \/ MSendFinal \/ MReturn)
+            /\ WF_vars(MSendStart \/ MSpawn \/ MTop \/ MLoop \/ MWake \/ MTimeout \/ MSendBody \/ MSent \/ MRsFin \/ MFin \/ MAclose \/ MRaise \/ MSendFinal \/ MSendFailed \/ MReturn)
             /\ WF_vars(PStart \/ PCheck \/ PPut \/ PPutWake \/ PCancelAnext \/ PCancelPut \/ PFinally \/ PNoneWake \/ PCancelNone \/ PAclose)
             /\ WF_vars(WStart \/ WCancelled)
 FairSpecNoProducer == Spec /\ ProgressNoProducer
@@ -252,11 +266,15 @@ ClosedOnce == closed <= 1
 Settled == AllDone => (begun => closed = 1)
 \* undisturbed (no disconnect delivered): every item arrives, then the final body; a producer's exception is reported
 CompleteWhenUndisturbed == (outcome = "returned" /\ ~discDelivered) => (delivered = Iota(n) /\ finalSent /\ raiseAt = 0)
-RaisedIsReported == (mpc = "done" /\ ~discDelivered /\ raiseAt # 0) => outcome = "raised"
+RaisedIsReported == (mpc = "done" /\ ~discDelivered /\ raiseAt # 0 /\ outcome # "sendfailed") => outcome = "raised"
+\* a failed send() is reported to the server (or the producer's exception, if the relay died of it meanwhile), never swallowed
+SendFailureReported == (mpc = "done" /\ (sfail \/ (failAt # 0 /\ sends >= failAt))) => outcome \in {"sendfailed", "raised"}
+\* ... and nothing is sent after it
+NothingAfterFailure == sends <= (IF failAt = 0 THEN sends ELSE failAt)
 RaisedOnlyIfProducerRaised == outcome = "raised" => pexc
 NothingAfterFinal == finalSent => mpc \in {"ret", "done"}
 \* the thread is held by at most the task whose turn it is
-Cooperative == (running = "push" => ppc \in {"check", "put", "finally", "aclose"}) /\ (running = "main" => mpc \in {"init", "top", "loop", "yield", "rsfin", "fin", "aclose", "fin2"})
+Cooperative == (running = "push" => ppc \in {"check", "put", "finally", "aclose"}) /\ (running = "main" => mpc \in {"init", "top", "loop", "yield", "rsfin", "fin", "aclose", "fin2", "fail"})
 \* liveness: the call ends and nothing stays pending, whatever the client and the timers do
 Terminates == <>[]AllDone
 \* once the disconnect is delivered the call ends without needing the producer: main is never waiting on push alone
